@@ -241,7 +241,7 @@ inline int main_impl(int argc,char **argv,Engine &e,const char *engine_name){
 			if(r.ok) printf("R %s ok %016llx %016llx\n",sl.c_str(),(unsigned long long)r.hash,(unsigned long long)r.nt);
 			else { viol++; if(classes.insert(r.cls).second || viol <= 3) printf("V %s %s\n",sl.c_str(),result_json(r).str().c_str()); else printf("v %s %s\n",sl.c_str(),r.cls.c_str()); }
 			fflush(stdout);
-			if(classes.size() >= 4 || viol >= 300) break;   // a frequent (possibly known) finding must not end exploration
+			if(classes.size() >= 12 || viol >= 2000) break;   // a frequent (possibly known) finding must not end exploration; the driver restarts the batch after this run
 		}
 		J t = J::obj(); t["runs"] = (long long)runs; t["wall_s"] = wall()-t0; J sj = J::obj(); for(auto &kv:sums) sj[kv.first] = (long long)kv.second; t["sums"] = sj; t["samples"] = samples;
 		printf("T %s\n",t.str().c_str()); fflush(stdout);
